@@ -664,6 +664,8 @@ def c12_case(ctx, book, case_seed):
     sheet = sheet.strip("'").replace("''", "'")
     old = stored[cell]
     new = old * 2 + 1 if rng.random() < 0.5 else old + rng.choice([1, -1]) * max(1.0, abs(old) * 0.01)
+    if abs(new - old) < max(1.0, abs(old) * 0.01):
+        new = old + max(1.0, abs(old) * 0.01)          # (-1 * 2 + 1 is -1 again)
     case = {'kind': 'real-book', 'book': book, 'case_seed': case_seed, 'cell': cell, 'old': old, 'new': new}
     dst = os.path.join(ctx.tmpdir, 'books')
     os.makedirs(dst, exist_ok=True)
